@@ -501,6 +501,16 @@ Proof. vm_compute. reflexivity. Qed.
 Lemma lagged_first_status_kept : rrun rinit seventeen = [(0%N, Status 1)].
 Proof. vm_compute. reflexivity. Qed.
 
+(* the plain shut_down() is a request like any other: first plain then 17 explicit ones, and the reverse *)
+Definition plain_then_explicit : list (N * rin) :=
+  (0%N, RReq Exited) :: map (fun k => (0%N, RReq (Status (N.of_nat k)))) (seq 1 17) ++ [(0%N, RPoll)].
+Definition explicit_then_plain : list (N * rin) :=
+  (0%N, RReq (Status 5)) :: map (fun _ => (0%N, RReq Exited)) (seq 1 17) ++ [(0%N, RPoll)].
+
+Lemma lagged_plain_first :
+  rrun rinit plain_then_explicit = [(0%N, Exited)] /\ rrun rinit explicit_then_plain = [(0%N, Status 5)].
+Proof. split; vm_compute; reflexivity. Qed.
+
 Lemma insert_timeout_head : forall d reqs,
   exists rest, insert_timeout d reqs =
     match reqs with
